@@ -94,7 +94,11 @@ bool g_trace_on = true;
 uint32_t g_inject = 0; // per mille
 uint64_t g_seed = 1;
 std::atomic<uint64_t> g_stamp{1};
-std::vector<std::unique_ptr<Disp>> g_disps;
+std::vector<std::unique_ptr<Disp>> g_disps;   // touched by the script thread only
+constexpr int kMaxDisp = 16;
+constexpr int kMaxQueues = 16;
+std::atomic<Dispatcher*> g_live[kMaxDisp];    // dispatchers currently alive, readable from task bodies
+std::atomic<int> g_live_readers{0};
 
 struct Gate { std::mutex m; std::condition_variable cv; bool open = false; };
 std::map<int, std::unique_ptr<Gate>> g_gates;
@@ -189,11 +193,16 @@ void taskBody(Disp* D, TaskRec* T, ThreadId tid_arg) {
         if (D->busy_tid[tid]->exchange(1) != 0) D->duptid.fetch_add(1);
     }
     if (D->d && D->d->currentThreadId().toInt() != tid) D->tidmismatch.fetch_add(1);
-    for (auto& other : g_disps) {
-        if (other && other.get() != D && other->d && !other->destroyed && tid != 0u) {
-            // a worker of D is not a thread of any other dispatcher
-            if (other->d->currentThreadId().toInt() != 0u) D->foreign.fetch_add(1);
+    if (tid != 0u) {
+        // a worker of D is not a thread of any other dispatcher that is alive (fixed slots; a destroyer waits for readers)
+        g_live_readers.fetch_add(1);
+        for (auto& slot : g_live) {
+            Dispatcher* other = slot.load();
+            if (other != nullptr && other != D->d.get()) {
+                if (other->currentThreadId().toInt() != 0u) D->foreign.fetch_add(1);
+            }
         }
+        g_live_readers.fetch_sub(1);
     }
     if (tid != 0u && T->queue == 0) D->active_on_workers.fetch_add(1); // parallel tasks inside their body on a worker
     if (T->queue > 0) {
@@ -260,6 +269,8 @@ void destroyDisp(Disp& D) {
     openAllGates(); // a task parked at a gate would make the join below hang for a reason of the script's own making
     tl_cur_disp = D.index;
     D.queues.clear();
+    g_live[D.index].store(nullptr);
+    while (g_live_readers.load() != 0) std::this_thread::yield();
     D.d.reset();
     D.destroy_return_stamp = g_stamp.fetch_add(1);
     D.destroyed = true;
@@ -301,19 +312,22 @@ int main() {
         }
         else if (op == "disp") {
             int d = 0; uint32_t n = 0; in >> d >> n;
-            if (d != static_cast<int>(g_disps.size())) { std::printf("O error dispatchers must be numbered 0,1,2,...\n"); return 2; }
+            if (d != static_cast<int>(g_disps.size()) || d >= kMaxDisp) { std::printf("O error dispatchers must be numbered 0,1,2,... (at most 16)\n"); std::fflush(stdout); return 2; }
             g_disps.emplace_back(new Disp);
             Disp& D = *g_disps.back();
             D.index = d;
             const uint32_t expect = n != 0 ? n : Dispatcher::maxThreadCount() - 1u;
             D.workers = expect;
             for (uint32_t i = 0; i <= expect; ++i) D.busy_tid.emplace_back(new std::atomic<int>(0));
-            D.in_queue.emplace_back(new std::atomic<int>(0));
-            D.last_started.emplace_back(new std::atomic<int64_t>(-1));
+            for (int q = 0; q <= kMaxQueues; ++q) {
+                D.in_queue.emplace_back(new std::atomic<int>(0));
+                D.last_started.emplace_back(new std::atomic<int64_t>(-1));
+            }
             logEvent(d, 0, 0, expect, "X_new");
             { std::lock_guard<std::mutex> l{g_trace_mutex}; g_creating = d; }
             tl_cur_disp = d;
             D.d.reset(new Dispatcher{n});
+            g_live[d].store(D.d.get());
             // worker threads may start late: keep attributing unknown dispatcher-state pointers to `d`
             // until the first worker has reported (a dispatcher without workers is identified by its
             // first event on this thread)
@@ -342,9 +356,8 @@ int main() {
             Disp& D = disp(d);
             tl_cur_disp = d;
             logEvent(d, 0, 0, prio, "X_createQueue");
+            if (static_cast<int>(D.queues.size()) >= kMaxQueues) { std::printf("O error too many queues\n"); std::fflush(stdout); return 2; }
             D.queues.emplace_back(D.d->createQueue("q" + std::to_string(D.queues.size()), prio));
-            D.in_queue.emplace_back(new std::atomic<int>(0));
-            D.last_started.emplace_back(new std::atomic<int64_t>(-1));
             std::printf("O queue %d -> %zu valid=%d\n", d, D.queues.size(), D.queues.back().valid() ? 1 : 0);
         }
         else if (op == "par" || op == "async" || op == "parg" || op == "asyncg") {
@@ -417,6 +430,7 @@ int main() {
         else if (op == "wait") {
             int d = 0, q = 0; in >> d >> q;
             Disp& D = disp(d);
+            if (q < 0 || q > static_cast<int>(D.queues.size())) { std::printf("O error no such queue\n"); std::fflush(stdout); return 2; }
             const size_t upto = D.tasks.size();
             tl_cur_disp = d;
             logEvent(d, 0, 0, q, "X_waitBegin");
